@@ -112,6 +112,11 @@ META = {
         "note": "Trusted: as C11. stop is exercised with a zero time budget (virtual clock); EventLoop::stop / stop_sync are not covered.",
         "design_ref": "DESIGN.md §4 C12",
     },
+    "C01": {
+        "text": "Theorems over every history of submissions to any loop, scheduling passes of any loop (local pop, steal, shared pop, overflow spill, the 61-tick rule) and cancel requests, any number of loops, any capacity: the submitted ids are exactly (as a multiset) ran ++ skipped ++ still-queued (C01_exactly_once), so nothing runs twice (C01_at_most_once) or disappears (C01_none_lost); only a requested cancel makes a pass skip a task (C01_skipped_only_if_cancelled, C01_taken_runs); a pass that finds nothing means nothing is queued anywhere (C01_no_stranding); passes of any single loop drain every queue (C01_drain); no call spins (C01_total). Proved by replaying the runtime's ghost history into the queue theorems of C03/C06. Tie: `rt` runs k real pools sharing the real process-wide queue and compares which tasks each pass executes, in order; `once` runs real loop threads against real submitter threads and checks every task ran exactly once.",
+        "note": "Trusted: Lean kernel; hand-written runtime + queue models; atomicity of individual queue calls (crossbeam/st3 and the pool's push/pop lock); harness. Partial: thread interleavings inside queue calls are exercised (once, qconc) but not proved.",
+        "design_ref": "DESIGN.md §4 C01",
+    },
     "C02": {
         "text": "Theorems over every interleaving (inductive `Reach`, unbounded) of the waiter's take / register / re-check / block / final-take steps with the completer's insert / notify steps and the passing of the deadline: a returned value is the task's own outcome (C02_own_result), a finished task never leaves its waiter blocked (C02_no_lost_wakeup), a timeout needs an expired deadline and an untaken or not yet produced result (C02_timeout_only_if_unfinished); the pre-fix code loses the wake-up (C02_old_lost_wakeup, by evaluation). Tie: pause points in the real wait/complete code let the harness force all 15 merges plus the late-completion and the two-pool schedule on a real pool with real threads; outcome and promptness are compared with the model's run of the same schedule. Known finding: a task taken by another pool of the process stores its result there.",
         "note": "Trusted: Lean kernel; hand-written interleaving model (granularity = one DashMap or Mutex operation); pause hooks and gate controller; wall-clock promptness threshold. Partial: thread-level atomicity of DashMap/Condvar is assumed, not proved; multi-waiter and coroutine-waiter paths are not in this model.",
